@@ -933,6 +933,7 @@ fn c02_op_handler() {
             assert!(log_is(&[]), "C04.FALLBACK-MATCH: a fallback recorded for another signal is never called; an unknown signal runs nothing");
         }
         assert!(quiescent(), "C03.READ-BALANCED: the delivery leaves both reader counts as it found them and touches no mutex");
+        assert!(hc::LAST_REF_DROPS == 0, "C03.NO-FREE: a delivery never drops the last reference of an action or snapshot (so it never frees; reclamation is the writer's job after the grace period)");
         kani::cover!(sig == st.a && st.na >= 1, "C02.cover: actions of the delivered signal ran");
         kani::cover!(fb_some && fb_sig == sig && sig != st.a && sig != st.b, "C04.cover: fallback used");
     }
